@@ -142,6 +142,10 @@ def scenarios(ctx):
         # a long-lived engine left idle between two requests (the trainer trains between rollout
         # batches): 3 s of pause, timed waits of the workers 100x faster = five idle minutes
         add(2, [3, 3], pause=3.0, compress=100)
+        # one very large request (thousands of commands: more than any pipe or queue buffers at once),
+        # fault-free and with a factory that raises
+        add(2, [5000])
+        add(2, [4500], ["factory:0", "factory:1"])
         # many games, every transcript kept by the caller, few file descriptors; games cut by the ply limit
         add(2, [150, 60], nofile=160)
         add(2, [6, 3], ply_limit=0)
